@@ -313,7 +313,7 @@ def plan(tier, seed):
     if tier != "quick":
         for g in range(20):
             for p in range(2):
-                specs.append({"mode": "enum", "gen_seed": seed * 13 + g, "part": p, "parts": 2, "cap": None})
+                specs.append({"mode": "enum", "gen_seed": seed * 13 + g, "part": p, "parts": 2, "cap": 3000})
     return specs
 
 
